@@ -6,10 +6,12 @@ import (
 	"bytes"
 	stdjson "encoding/json"
 	"fmt"
+	"io"
 	"math/rand/v2"
 	"reflect"
 	"strconv"
 	"strings"
+	"testing/iotest"
 	"unicode/utf16"
 	"unicode/utf8"
 
@@ -155,6 +157,46 @@ func checkUnquote(w *run.W, lit []byte, meaning string, illFormed bool) {
 		w.Violate("unquote-meaning", map[string]string{"api": "Unmarshal-any", "illformed": fmt.Sprint(illFormed)},
 			"Unmarshal(%q, *any) = %q, err=%v; meaning is %q, ill-formed=%v", lit, gotAny, err, meaning, illFormed)
 	}
+	// the same literal arriving piecemeal: the string scanner is then resumed in the middle of the literal
+	// and what it learnt about the part already scanned (escapes seen, ill-formed bytes seen) must survive
+	h := litHash(lit)
+	if len(lit) < 3 || (h%4 != 0 && !(bytes.IndexByte(lit, '\\') >= 0 && h%2 == 0)) {
+		return
+	}
+	w.Count("unquote_literals_streamed", 1)
+	cut := 1 + int(h>>8)%(len(lit)-1)
+	for ri, mk := range []func() io.Reader{
+		func() io.Reader { return iotest.OneByteReader(bytes.NewReader(lit)) },
+		func() io.Reader { return io.MultiReader(bytes.NewReader(lit[:cut]), bytes.NewReader(lit[cut:])) },
+	} {
+		reader := [2]string{"one-byte", "two-chunks"}[ri]
+		got = ""
+		err = json.UnmarshalRead(mk(), &got, jsontext.AllowInvalidUTF8(true))
+		if err != nil || got != meaning {
+			w.Violate("unquote-meaning", map[string]string{"api": "UnmarshalRead+AllowInvalidUTF8", "reader": reader, "illformed": fmt.Sprint(illFormed)},
+				"UnmarshalRead(%q via %s reader, cut %d, *string) = %q, err=%v; meaning is %q", lit, reader, cut, got, err, meaning)
+		}
+		gotAny = nil
+		err = json.UnmarshalRead(mk(), &gotAny)
+		if (err != nil) != illFormed || (err == nil && gotAny != any(meaning)) {
+			w.Violate("unquote-meaning", map[string]string{"api": "UnmarshalRead-any", "reader": reader, "illformed": fmt.Sprint(illFormed)},
+				"UnmarshalRead(%q via %s reader, cut %d, *any) = %q, err=%v; meaning is %q, ill-formed=%v", lit, reader, cut, gotAny, err, meaning, illFormed)
+		}
+		d := jsontext.NewDecoder(mk(), jsontext.AllowInvalidUTF8(true))
+		val, err := d.ReadValue()
+		if err != nil || !bytes.Equal(val, lit) {
+			w.Violate("unquote-meaning", map[string]string{"api": "Decoder.ReadValue+AllowInvalidUTF8", "reader": reader, "illformed": fmt.Sprint(illFormed)},
+				"ReadValue(%q via %s reader, cut %d) = %q, err=%v", lit, reader, cut, val, err)
+		}
+	}
+}
+
+func litHash(b []byte) uint64 {
+	var h uint64 = 1469598103934665603
+	for _, c := range b {
+		h = (h ^ uint64(c)) * 1099511628211
+	}
+	return h
 }
 
 func strClass(s []byte) string {
